@@ -299,6 +299,16 @@ func hostileValues(f refcodec.LenField, n int, thorough bool) []hostile {
 			add("true_m1", tv-1)
 		}
 		add("true_p1", tv+1)
+		// a little too small / too large: the announced extent ends inside the next nested field instead of at its end
+		for _, d := range []uint64{2, 3, 5, 8, 12, 16, 20} {
+			if tv > d {
+				add(fmt.Sprintf("true_m%d", d), tv-d)
+			}
+			add(fmt.Sprintf("true_p%d", d), tv+d)
+		}
+		if tv > 3 {
+			add("true_half", tv/2)
+		}
 		add("remain", rem)
 		add("remain_p1", rem+1)
 		if compactKind(f.Kind) {
@@ -348,6 +358,15 @@ func hostileValues(f refcodec.LenField, n int, thorough bool) []hostile {
 	addS("one", 1)
 	addS("true_m1", tvs-1)
 	addS("true_p1", tvs+1)
+	for _, d := range []int64{2, 3, 5, 8, 12, 16, 20} {
+		if tvs > d {
+			addS(fmt.Sprintf("true_m%d", d), tvs-d)
+		}
+		addS(fmt.Sprintf("true_p%d", d), tvs+d)
+	}
+	if tvs > 3 {
+		addS("true_half", tvs/2)
+	}
 	addS("remain", int64(rem))
 	addS("remain_p1", int64(rem)+1)
 	addS("i16max", 1<<15-1)
